@@ -2,9 +2,10 @@
    denotes and [warnings_of] (C10/YpPrint.v) on a description of (fa, fp, ag, lay).
 
    case line (tokens separated by blanks):
-     <fa:0|1>[<fp:0|1>] <ndecls> decl*  <nrules> rule*  <programs>  <nlay> entry*
-       (first token: "0", "1", "00", "01", "10", "11"; fa = repaired action span, fp = repaired
-        production span; a missing fp digit means 0)
+     <fa:0|1>[<fp:0|1>[<fu:0|1>]] <ndecls> decl*  <nrules> rule*  <programs>  <nlay> entry*
+       (first token: one to three binary digits; fa = repaired action span, fp = repaired
+        production span, fu = %prec tokens of reachable productions count as used (/repo 4ff022d);
+        a missing digit means 0)
      decl  := S <name> | T <n> <name>*n | L|R|N <n> <name>*n | E <name> <value> | A <n> <name>*n
             | X <hexnum> | Y <hexnum>                      (%expect / %expect-rr values, hex)
             | C <type>                                     (%actiontype)
@@ -24,7 +25,7 @@
    layout defaults for paths without an entry: gap "", style bare, txt "", flag false.
 
    result line:  x<hex of (print lay ag), UTF-8> # <transcript of (ast_of fa fp lay ag), no errors,
-   warnings (warnings_of fa fp lay ag)> — the transcript format of harness/src/bin/c10yp.rs
+   warnings (warnings_of fa fp fu lay ag)> — the transcript format of harness/src/bin/c10yp.rs
    ([dump] below is a copy of the one in ocaml/c10yp/driver_body.ml). *)
 let unhex (s : string) : int list =
   (* hex -> bytes -> code points (input is valid UTF-8) *)
@@ -182,7 +183,7 @@ let n_of_hex (s : string) : n =
 let path_of (s : string) : int list =
   if s = "-" then [] else List.map int_of_string (String.split_on_char '.' s)
 
-let decode (toks : string list) : bool * bool * agram * layout =
+let decode (toks : string list) : bool * bool * bool * agram * layout =
   let cur = ref toks in
   let next () = match !cur with [] -> raise (Bad "short") | t :: r -> cur := r; t in
   let num () = int_of_string (next ()) in
@@ -192,6 +193,7 @@ let decode (toks : string list) : bool * bool * agram * layout =
   let flags01 = next () in
   let fa = (String.length flags01 >= 1 && flags01.[0] = '1') in
   let fp = (String.length flags01 >= 2 && flags01.[1] = '1') in
+  let fu = (String.length flags01 >= 3 && flags01.[2] = '1') in
   let sym () =
     match next () with
     | "r" -> ARule (name ())
@@ -252,14 +254,14 @@ let decode (toks : string list) : bool * bool * agram * layout =
   let look tbl dflt (p : nat list) =
     match Hashtbl.find_opt tbl (List.map int_of_nat p) with Some v -> v | None -> dflt in
   let lay = { l_gap = look gaps []; l_q = look styles QBare; l_txt = look txts []; l_flag = look flags false } in
-  (fa, fp, { ag_decls = decls; ag_rules = rules; ag_programs = progs }, lay)
+  (fa, fp, fu, { ag_decls = decls; ag_rules = rules; ag_programs = progs }, lay)
 
 let () =
   iter_lines (fun line ->
     match (try Ok (decode (split_ws line)) with Bad m -> Error m | Failure m -> Error m | Invalid_argument m -> Error m) with
     | Error m -> "BADCASE " ^ m
-    | Ok (fa, fp, ag, lay) ->
+    | Ok (fa, fp, fu, ag, lay) ->
       let text = print lay ag in
       let ast = ast_of fa fp lay ag in
       let errs : yerr list = [] in
-      xh text ^ " # " ^ dump ast errs (warnings_of fa fp lay ag))
+      xh text ^ " # " ^ dump ast errs (warnings_of fa fp fu lay ag))
